@@ -21,6 +21,7 @@ import (
 	"testing"
 
 	"github.com/titpetric/vuego"
+	"golang.org/x/net/html"
 
 	"verif/internal/ev"
 	"verif/internal/hx"
@@ -31,17 +32,17 @@ const prop = "C13"
 
 // Positions an expression can be placed in.
 const (
-	posInterp = "interp"   // <i>{{ e }}</i>
-	posSAttr  = "sattr"    // <i title="{{ e }}"></i>   (pipes / errors only: the documented href="{{ … }}" form)
-	posBound  = "bound"    // <b :data-x="e"></b>
-	posIf     = "v-if"     // <p v-if="e">Y</p><p v-else>N</p>
+	posInterp = "interp"    // <i>{{ e }}</i>
+	posSAttr  = "sattr"     // <i title="{{ e }}"></i>   (the documented href="{{ … }}" form)
+	posBound  = "bound"     // <b :data-x="e"></b>
+	posIf     = "v-if"      // <p v-if="e">Y</p><p v-else>N</p>
 	posElseIf = "v-else-if" // <p v-if="off">A</p><p v-else-if="e">Y</p><p v-else>N</p>
-	posShow   = "v-show"   // <s v-show="e">S</s>
+	posShow   = "v-show"    // <s v-show="e">S</s>
 )
 
-var allExprPos = []string{posInterp, posBound, posIf, posElseIf, posShow}
+var allExprPos = []string{posInterp, posSAttr, posBound, posIf, posElseIf, posShow}
 var condPos = []string{posIf, posElseIf, posShow}
-var valuePos = []string{posInterp, posBound}
+var valuePos = []string{posInterp, posSAttr, posBound}
 var pipePos = []string{posInterp, posSAttr, posBound}
 
 // Arg is one argument of a pipe stage: str (quoted literal, Q = d|s), int, float, bool, path.
@@ -141,14 +142,22 @@ type obs struct {
 	hasBool bool   // the position gives a truthiness verdict
 }
 
-func render(env map[string]any, tpl string) (string, error) {
+// engine is one vuego instance, fresh per case and shared by the renders of that case (so the
+// documented program cache of the expression evaluator is exercised across expressions).
+type engine struct{ t vuego.Template }
+
+func newEngine(env map[string]any) *engine {
+	return &engine{t: vuego.New(vuego.WithFuncs(funcMap())).Fill(env)}
+}
+
+func (e *engine) render(tpl string) (string, error) {
 	var b bytes.Buffer
-	err := vuego.New(vuego.WithFuncs(funcMap())).Fill(env).RenderString(context.Background(), &b, tpl)
+	err := e.t.RenderString(context.Background(), &b, tpl)
 	return b.String(), err
 }
 
-func observe(env map[string]any, pos, e string) (obs, error) {
-	out, err := render(env, templateFor(pos, e))
+func observe(eng *engine, pos, e string) (obs, error) {
+	out, err := eng.render(templateFor(pos, e))
 	if err != nil {
 		return obs{err: err}, nil
 	}
@@ -164,8 +173,8 @@ func observe(env map[string]any, pos, e string) (obs, error) {
 	el := els[0]
 	switch pos {
 	case posInterp:
-		t := hx.TextOf(el.Kids, " ")
-		return obs{text: t, present: true}, nil
+		// exact text (inner blanks matter for values such as JSON); only the ends are trimmed
+		return obs{text: strings.TrimSpace(rawText(out, "i")), present: true}, nil
 	case posSAttr:
 		t, ok := el.Attrs["title"]
 		if !ok {
@@ -220,11 +229,49 @@ func sameValue(got string, want any) bool {
 		return reflect.DeepEqual(a, b)
 	case nil:
 		return got == ""
+	case string:
+		// blanks at the ends of a printed value are not significant in HTML text / attributes
+		return strings.TrimSpace(got) == strings.TrimSpace(w)
 	}
-	return got == fmt.Sprint(want)
+	return strings.TrimSpace(got) == fmt.Sprint(want)
 }
 
-func norm(s string) string { return strings.Join(strings.Fields(s), " ") }
+// rawText returns the concatenated text below the first <tag> of the output, unnormalised.
+func rawText(out, tag string) string {
+	ns, err := hx.ParseFragment(out)
+	if err != nil {
+		return ""
+	}
+	var sb strings.Builder
+	var text func(n *html.Node)
+	text = func(n *html.Node) {
+		if n.Type == html.TextNode {
+			sb.WriteString(n.Data)
+		}
+		for c := n.FirstChild; c != nil; c = c.NextSibling {
+			text(c)
+		}
+	}
+	var find func(n *html.Node) bool
+	find = func(n *html.Node) bool {
+		if n.Type == html.ElementNode && n.Data == tag {
+			text(n)
+			return true
+		}
+		for c := n.FirstChild; c != nil; c = c.NextSibling {
+			if find(c) {
+				return true
+			}
+		}
+		return false
+	}
+	for _, n := range ns {
+		if find(n) {
+			break
+		}
+	}
+	return sb.String()
+}
 
 func check(c Case) error {
 	env := envOf(c.Env)
@@ -325,10 +372,35 @@ func checkValue(c Case, env map[string]any, pos []string) error {
 	if err != nil {
 		return err
 	}
+	eng := newEngine(env)
+	if c.Fam == "expr" {
+		// the twin (same shape, same length, sibling operators) goes through the same engine first
+		if tw := twin(*c.E); tw.Text() != src {
+			if tv, err := eval(tw, env); err == nil {
+				if _, u := tv.(unknown); !u {
+					for _, p := range []string{posInterp, posIf} {
+						if !contains(pos, p) {
+							continue
+						}
+						o, herr := observe(eng, p, tw.Text())
+						if herr != nil {
+							return fmt.Errorf("`%s` in position %s (env %d): %v", tw.Text(), p, c.Env, herr)
+						}
+						if o.err != nil {
+							return fmt.Errorf("`%s` in position %s (env %d): render failed: %v; the expression is well-formed and every path resolves; conventional value %v (%T)", tw.Text(), p, c.Env, o.err, tv, tv)
+						}
+						if (o.present && !sameValue(o.text, tv)) || (o.hasBool && o.truthy != truthy(tv)) {
+							return fmt.Errorf("`%s` in position %s (env %d): shows %q truthy=%v, conventional evaluation gives %v (%T)", tw.Text(), p, c.Env, o.text, o.truthy, tv, tv)
+						}
+					}
+				}
+			}
+		}
+	}
 	seen := map[string]obs{}
 	var order []string
 	for _, p := range pos {
-		o, herr := observe(env, p, src)
+		o, herr := observe(eng, p, src)
 		if herr != nil {
 			return fmt.Errorf("%s in %s: %v", src, p, herr)
 		}
@@ -342,14 +414,7 @@ func checkValue(c Case, env map[string]any, pos []string) error {
 		}
 		// (i) the value equals the model's
 		if o.present && !(p == posBound && !truthy(want)) {
-			exp := want
-			if s, ok := want.(string); ok {
-				exp = norm(s)
-				if p != posInterp {
-					exp = s
-				}
-			}
-			if !sameValue(o.text, exp) {
+			if !sameValue(o.text, want) {
 				return fmt.Errorf("`%s` in position %s (env %d): printed %q, conventional evaluation gives %v (%T)", src, p, c.Env, o.text, want, want)
 			}
 		}
@@ -372,12 +437,70 @@ func checkValue(c Case, env map[string]any, pos []string) error {
 		if o.present {
 			if firstText == "" {
 				firstText = p
-			} else if norm(seen[firstText].text) != norm(o.text) {
+			} else if strings.TrimSpace(seen[firstText].text) != strings.TrimSpace(o.text) {
 				return fmt.Errorf("`%s` (env %d): position %s shows %q but position %s shows %q", src, c.Env, firstText, seen[firstText].text, p, o.text)
 			}
 		}
 	}
 	return nil
+}
+
+func contains(l []string, x string) bool {
+	for _, y := range l {
+		if x == y {
+			return true
+		}
+	}
+	return false
+}
+
+// twin swaps every binary operator for a sibling of the same typing and text length
+// (% and / keep their operand constraints and stay).
+func twin(e Expr) Expr {
+	out := e
+	if e.K == "bin" {
+		if to, ok := map[string]string{"+": "-", "-": "+", "*": "+", "<": ">", ">": "<", "<=": ">=", ">=": "<=", "==": "!=", "!=": "==", "&&": "||", "||": "&&"}[e.V]; ok {
+			out.V = to
+			if e.V == "+" {
+				// string + has no sibling
+				out.V = "+"
+				if isNumericTree(e) {
+					out.V = "-"
+				}
+			}
+		}
+	}
+	out.A = nil
+	for _, a := range e.A {
+		out.A = append(out.A, twin(a))
+	}
+	return out
+}
+
+// isNumericTree reports whether a + node adds numbers (decided on literals / catalogue paths).
+func isNumericTree(e Expr) bool {
+	switch e.K {
+	case "int", "float":
+		return true
+	case "str", "bool", "not":
+		return false
+	case "path":
+		return contains(intPaths, e.V) || contains(floatPaths, e.V)
+	case "paren":
+		return isNumericTree(e.A[0])
+	case "tern":
+		return isNumericTree(e.A[1])
+	case "call":
+		return contains([]string{"len", "int", "add", "sum", "half", "scale"}, e.V)
+	case "bin":
+		switch e.V {
+		case "+":
+			return isNumericTree(e.A[0])
+		case "-", "*", "%", "/":
+			return true
+		}
+	}
+	return false
 }
 
 func wantNote(want any, known bool) string {
@@ -411,8 +534,9 @@ func checkErr(c Case, env map[string]any, pos []string) error {
 	default:
 		return fmt.Errorf("CHECK-BUG: why=%q", c.Why)
 	}
+	eng := newEngine(env)
 	for _, p := range pos {
-		out, err := render(env, templateFor(p, src))
+		out, err := eng.render(templateFor(p, src))
 		if err == nil {
 			return fmt.Errorf("`%s` in position %s (env %d): %s (%s) but the render succeeded with %q; it must fail with an error naming %s", src, p, c.Env, whyText(c.Why), c.ErrFn, out, c.ErrFn)
 		}
